@@ -16,7 +16,7 @@ UNSUPPORTED_LEAVES = {
     "-nouser": None, "-nogroup": None, "nope": "XDev", "-prune": "Prune", "-ls": "List", "-fls out": "FileList",
     "-printf '%d'": "Depth", "-printf '%D'": "DeviceNumber", "-printf '%F'": "FsType", "-printf '%l'": "SymbolicTarget",
     "-printf '%M'": "PermissionsSymbolic", "-printf '%Y'": "TypeSymlink", "-printf '%Z'": "SecurityContext",
-    "-printf 'a%pb%Zc\\n'": "SecurityContext", "-fprintf o '%s %d'": "Depth",
+    "-printf 'a%pb%Zc\\n'": "SecurityContext", "-fprintf o '%s %d'": "Depth", "-printf 'a\\cb\\n'": "Clear", "-fprintf o '%p\\c'": "Clear",
 }
 
 
